@@ -231,3 +231,66 @@ Proof.
     replace (i <? 0) with true by lia. specialize (K _ _ En). rewrite Z2Nat.id in K by lia.
     rewrite Z2Nat.id by lia. replace (i + zlen (plain t)) with (zlen (plain t) + i) by lia. exact K.
 Qed.
+
+(* ---------- rich/highlighter.py: Highlighter.__call__ ---------- *)
+Lemma sim_regex_highlight pats : forall t, Consistent t ->
+  abs (regex_highlight t pats) = r_regex_highlight (abs t) pats /\ Consistent (regex_highlight t pats).
+Proof.
+  unfold regex_highlight, r_regex_highlight. induction pats as [|[set st] pats IH]; intros t H; [split; auto|].
+  cbn [fold_left fst snd]. destruct (sim_highlight_runs t set st H) as [A C]. rewrite <- A. apply IH. exact C.
+Qed.
+
+Lemma regex_highlight_frame pats : forall t,
+  plain (regex_highlight t pats) = plain t /\ len (regex_highlight t pats) = len t /\
+  tmeta (regex_highlight t pats) = tmeta t /\ exists extra, spans (regex_highlight t pats) = spans t ++ extra.
+Proof.
+  unfold regex_highlight. induction pats as [|[set st] pats IH]; intros t.
+  - simpl. repeat split; auto. exists []. now rewrite app_nil_r.
+  - cbn [fold_left fst snd]. destruct (IH (highlight_runs t set st)) as (I1 & I2 & I3 & [extra I4]).
+    rewrite I1, I2, I3, I4. unfold highlight_runs, with_spans. simpl.
+    repeat split; auto. eexists. now rewrite <- app_assoc.
+Qed.
+
+Lemma ctor_consistent s m : Consistent (ctor FIXED s m []) /\ abs (ctor FIXED s m []) = r_ctor s m.
+Proof.
+  rewrite ctor_fixed. split.
+  - apply mk_consistent; [reflexivity|apply ctl_free_strip|constructor].
+  - unfold abs, abs_chars, r_ctor. simpl. now rewrite abs_nil_spans.
+Qed.
+
+Lemma sim_highlighter pats a t : Consistent t ->
+  sim (highlighter_call FIXED pats a t) (r_highlighter pats a (abs t)).
+Proof.
+  intros H. destruct a as [|s|]; simpl.
+  - destruct (sim_copy t H) as [A C]. rewrite <- A. now apply sim_regex_highlight.
+  - destruct (ctor_consistent s (default_meta 0)) as [C A]. rewrite <- A. now apply sim_regex_highlight.
+  - reflexivity.
+Qed.
+
+(* any highlighter at all: the matcher is an oracle (a regex engine, a user's highlight()) about which only
+   "its spans lie inside the text it was given" is assumed *)
+Section HighlighterOracle.
+  Variable matcher : str -> list span.
+  Hypothesis matcher_within : forall p, Within (zlen p) (matcher p).
+
+  Definition hl_oracle (t : text) : text :=
+    let c := copy FIXED t in with_spans c (spans c ++ matcher (plain c)).
+
+  Theorem hl_oracle_spec t : Consistent t ->
+    abs (hl_oracle t) = r_add_spans (abs t) (matcher (plain t)) /\ Consistent (hl_oracle t) /\
+    plain (hl_oracle t) = plain t /\ len (hl_oracle t) = len t /\ tmeta (hl_oracle t) = tmeta t /\
+    spans (hl_oracle t) = spans t ++ matcher (plain t).
+  Proof.
+    intros H. destruct (cons_parts t H) as (H1 & H2 & H3). destruct (sim_copy t H) as [A C].
+    assert (copy FIXED t = mkText (plain t) (zlen (plain t)) (spans t) (tmeta t)) as E.
+    { unfold copy, with_spans. rewrite ctor_fixed, (strip_ctl_free _ H2). reflexivity. }
+    unfold hl_oracle. rewrite E. cbv zeta.
+    set (c := mkText (plain t) (zlen (plain t)) (spans t) (tmeta t)).
+    change (spans c) with (spans t). change (plain c) with (plain t).
+    assert (Consistent c) as Cc by (unfold c; rewrite <- E; exact C).
+    destruct (sim_add_spans c (matcher (plain t))) as [S1 S2]; [exact Cc|unfold c; simpl; apply matcher_within|].
+    change (spans c) with (spans t) in S1, S2.
+    split; [rewrite S1; f_equal; unfold c; rewrite <- E; exact A|]. split; [exact S2|].
+    unfold with_spans, c. simpl. repeat split; auto.
+  Qed.
+End HighlighterOracle.
